@@ -191,12 +191,26 @@ func (m *Model) RunErrLine(s *Sink, rule string) {
 	st := m.Method("textwire", "Template", "String")
 	if st != nil {
 		ok := false
+		modeDep := ""
 		// String's body, including same-package helpers it hands the work to (parameters resolved along the call chain)
 		m.walkInlined(st, 2, func(in ssa.Instruction, resolve func(ssa.Value) ssa.Value, _ int) {
 			if c, isC := in.(*ssa.Call); isC && c.Call.StaticCallee() != nil && canonFnName(c.Call.StaticCallee()) == "NewContext" {
 				if ex, isEx := resolve(c.Call.Args[0]).(*ssa.Extract); isEx {
 					if src, isS := ex.Tuple.(*ssa.Call); isS && src.Call.StaticCallee() != nil && filepathAbsOfTemplate(m, src.Call.StaticCallee()) {
 						ok = true
+						// the path of a loaded template's file depends on the configuration only — not on which API was
+						// used last (the string API resets the mode flag)
+						ea := m.Effects()
+						for f := range m.Reach([]*ssa.Function{src.Call.StaticCallee()}) {
+							if sum := ea.sums[f]; sum != nil {
+								for g := range sum.globReads {
+									if n := canonGlobalName(g); n != "userConfig" && m.InModule(f) && g.Pkg != nil && strings.HasPrefix(g.Pkg.Pkg.Path(), modPath) {
+										ok = false
+										modeDep = fmt.Sprintf("%s reads the package-level variable %s", fnKey(f), n)
+									}
+								}
+							}
+						}
 					}
 				}
 			}
@@ -204,7 +218,7 @@ func (m *Model) RunErrLine(s *Sink, rule string) {
 		if ok {
 			s.OK(rule, fnKey(st)+"|evaluation path is the template's absolute path", m.Pos(st.Pos()), "ctx.AbsPath = filepath.Abs(TemplateDir/name+ext)")
 		} else {
-			s.Violation(rule, fnKey(st)+"|evaluation path is the template's absolute path", m.Pos(st.Pos()), "the evaluation context of a page does not carry the absolute path of the page's file")
+			s.Violation(rule, fnKey(st)+"|evaluation path is the template's absolute path", m.Pos(st.Pos()), "the evaluation context of a page does not carry the absolute path of the page's file (as computed from the configuration alone) %s", modeDep)
 		}
 	}
 	// the evaluator that renders the page is built in this call from that context
